@@ -137,6 +137,30 @@ def compareWithDensity (p : Params) (a b : Cand) : Int :=
       let r := compareDensity p.window p.forkSlot x y
       if r ≠ 0 then r else compareTips a b
 
+/-- a nil tip does not restrict the metric; a non-nil one must implement WindowBlockCounter -/
+def candWindowed (c : Cand) : Bool := match c with | some t => t.windowed | none => true
+
+/-- `windowMetricFor`: the window-count metric is usable for ALL the given tips -/
+def windowMetricFor (p : Params) (tips : List Cand) : Bool :=
+  decide (p.window > 0) && tips.all candWindowed
+
+/-- `compareDensityMetric`: the metric is chosen by the caller.  (With `useWindow` the Go code
+    type-asserts both tips to WindowBlockCounter; its callers only pass `true` when that holds.) -/
+def compareDensityMetric (p : Params) (useWindow : Bool) (a b : Tip) : Int :=
+  cmpNat (densKey useWindow p.window p.forkSlot a) (densKey useWindow p.window p.forkSlot b)
+
+/-- `compareWithDensityMetric` -/
+def compareWithDensityMetric (p : Params) (useWindow : Bool) (a b : Cand) : Int :=
+  match a, b with
+  | none, none => 0
+  | none, some _ => -1
+  | some _, none => 1
+  | some x, some y =>
+    if !isDeepFork p.k p.forkBN p.tipBN then compareTips a b
+    else
+      let r := compareDensityMetric p useWindow x y
+      if r ≠ 0 then r else compareTips a b
+
 /-- one iteration of the loop in `selectPreferred`: state = (next index, index of preferred, preferred) -/
 def selStep (cmp : Cand → Cand → Int) (st : Nat × Nat × Cand) (c : Cand) : Nat × Nat × Cand :=
   if cmp c st.2.2 > 0 then (st.1 + 1, st.1, c) else (st.1 + 1, st.2.1, st.2.2)
@@ -147,6 +171,10 @@ def selectPreferred (cmp : Cand → Cand → Int) : List Cand → Option (Nat ×
   | c :: cs =>
     let r := cs.foldl (selStep cmp) (1, 0, c)
     some (r.2.1, r.2.2)
+
+/-- `PreferredWithDensity`: ONE density metric for the whole candidate set -/
+def preferredWithDensity (p : Params) (l : List Cand) : Option (Nat × Cand) :=
+  selectPreferred (compareWithDensityMetric p (windowMetricFor p l)) l
 
 /-! ### consensus/genesis -/
 
